@@ -38,6 +38,7 @@ func init() {
 		Batch:            1,
 		Workers:          4,
 		PanicIsViolation: true,
+		BenignCrash:      cluster.StartupRace,
 		BatchTimeout:     25 * time.Minute,
 		Env:              []string{"VERIF_TIMER_DIV=10"},
 		Run:              runC12,
@@ -77,13 +78,26 @@ func runC12(c *fw.Ctx) {
 		maxFlush := time.Duration(30+r.Intn(300)) * time.Millisecond
 		if crashMode {
 			// very different flush latencies: at a crash the tables are persisted up to different offsets
-			maxFlush = []time.Duration{time.Duration(15+r.Intn(40)) * time.Millisecond, time.Duration(700+r.Intn(2000)) * time.Millisecond, time.Duration(100+r.Intn(300)) * time.Millisecond}[(ti+c.Case/2)%3]
+			slow := time.Duration(700+r.Intn(2000)) * time.Millisecond
+			if c.Case%4 == 3 {
+				// one table is never flushed by its timer: a crash image holds nothing of it unless the
+				// follower was stopped cleanly before
+				slow = time.Hour
+			}
+			maxFlush = []time.Duration{time.Duration(15+r.Intn(40)) * time.Millisecond, slow, time.Duration(100+r.Intn(300)) * time.Millisecond}[(ti+c.Case/2)%3]
 		}
 		cdefs = append(cdefs, cluster.TableDef{Name: t.name, SQL: t.sql, Retention: 48 * time.Hour, MaxFlush: maxFlush, PartitionBy: t.partBy})
 		sdefs = append(sdefs, dbh.TableDef{Name: t.name, SQL: t.sql, Retention: 48 * time.Hour, Stream: "inbound", PartitionBy: t.partBy})
 	}
+	// every other in-process case runs the leaders with a tiny per-follower send queue, so that a delayed,
+	// cut or stopped follower makes the queue fill up (the leader must then wait, not drop)
+	followQueue := 0
+	if c.Case%4 == 2 {
+		followQueue = 2 + r.Intn(20)
+		c.Obs("scenarios_with_tiny_follow_queue", 1)
+	}
 	cl, err := cluster.New(cluster.Config{Dir: c.Dir + "/cluster", Tables: cdefs, NumLeaders: nLeaders, NumPartitions: N, Redundancy: red, Proxied: true, QueryTimeout: 60 * time.Second,
-		ProcFollowers: crashMode, NodeBin: fw.BinDir() + "/" + c12NodeBin(c)})
+		ProcFollowers: crashMode, NodeBin: fw.BinDir() + "/" + c12NodeBin(c), LeaderMaxFollowQueue: followQueue})
 	if err != nil {
 		c.Inconclusive("cluster: %v", err)
 		return
@@ -411,6 +425,9 @@ func runC12(c *fw.Ctx) {
 	}
 	c.Obs("scenarios", 1)
 	c.Obs("fault_steps", int64(steps))
+	for _, f := range followers {
+		c.Obs("follower_startup_races_retried", int64(f.StartupRaces))
+	}
 	c.Obs("follower_crashes", int64(crashes))
 	c.Obs("follower_crash_points_hit", int64(crashPointsHit))
 	if crashMode {
